@@ -240,3 +240,16 @@ Fixpoint partials (st : stmt) (s : acc) (rs : list host_result) : list acc :=
   | r :: t => let s' := stream_step st s r in
               match hr_err r with Some _ => partials st s' t | None => s' :: partials st s' t end
   end.
+
+(* ---------------------------------------------------------------- the querier layer (apiclient.Query)
+   Every host of the resolved list yields exactly one reply under its own name: the decoded result of a
+   configured host that answers, an error reply if its request fails, and also an error reply
+   (distributed.NewErrorRunner) if the host has no endpoint configuration. *)
+Inductive endpoint := Alive (res : host_result) | Down (msg : string) | Unconfigured.
+Definition ERR_UNCONFIGURED : string := "couldn't find endpoint configuration for host".
+Definition err_reply (h msg : string) : host_result :=
+  HR h (Some (msg, None)) [] [] [] ([], "")%string ZERO_T ZERO_T c0 None 0.
+Definition querier_reply (h : string) (e : endpoint) : host_result :=
+  match e with Alive res => res | Down msg => err_reply h msg | Unconfigured => err_reply h ERR_UNCONFIGURED end.
+Definition querier_replies (l : list (string * endpoint)) : list host_result :=
+  (fun he => querier_reply he.1 he.2) <$> l.
